@@ -249,6 +249,24 @@ def golden_cases(res, base, r):
                         'other_options': extra,
                         'stderr': run.stderr[-400:]
                     })
+    # (4) ... and a golden run that is stopped at the time limit has no
+    # output at all, so the match string is absent from it
+    slow = [realrun.rule('has:a', 0, 'NOT-THERE\n', 'NOT-THERE\n',
+                         fault='sleep'),
+            realrun.rule('all', 0, 'ok\n', '')]
+    for n, opt in enumerate(('--match-out', '--match-err')):
+        run = realrun.run_ddsmt(os.path.join(base, f'g4_{n}'), text, slow,
+                                opts=[opt, 'NOT-THERE', '--timeout', '0.4'])
+        res.count('evaluations')
+        res.count('match_string_cases')
+        if run.rc != 1 or run.out_bytes is not None or \
+                run.uncaught_traceback or len(run.cmdlog) > 1:
+            res.violation(
+                'golden-match-string-not-enforced:golden-run-timed-out',
+                f'{opt} with a golden run that is stopped at the time limit: '
+                f'exit status {run.rc}, '
+                f'{"traceback" if run.uncaught_traceback else "no traceback"}',
+                {'opt': opt, 'stderr': run.stderr[-600:]})
 
 
 TIMEOUT_GOLDEN_VARIANTS = [
